@@ -13,6 +13,8 @@
 //! progs: comma separated programs of ops `b` (submit) / `s` (submit_or_spawn), each
 //! optionally followed by digits = sleep (x100us) after the op.
 //!
+//! A line `twopool <nperm1> <nperm2> <linger_us> <n_tasks>` runs the two-pool scenario (see `twopool`) instead.
+//!
 //! Output: `e2e acc=.. ran=.. dup=.. late=.. ghost=.. okafter=.. awaits=.. T ev;ev;...`
 //! with ev = tid:kind:note:a:b:c, or `hang ... T ...` if the scenario did not finish.
 
@@ -86,6 +88,54 @@ mod real {
         ghost: usize,
         okafter: usize,
         awaits: usize,
+    }
+
+    /// `twopool <nperm1> <nperm2> <linger_us> <n_tasks>`: TWO pools of one group, one after the other (the group's
+    /// slab reuses the first pool's key for the second), and a stale handle: pool 1 is shut down, pool 2 is started,
+    /// pool 1's `shut_down` is called AGAIN (a no-op on a pool that is gone - it must not touch pool 2), then the group is
+    /// shut down: pool 2 must reject further work, every accepted task of both pools must have run when await_shutdown
+    /// returns, and await_shutdown must return.
+    fn twopool(f: &[String]) -> String {
+        let nperm1: usize = f[1].parse().unwrap();
+        let nperm2: usize = f[2].parse().unwrap();
+        let linger = Duration::from_micros(f[3].parse().unwrap());
+        let n_tasks: usize = f[4].parse().unwrap();
+        verif::arm(None);
+        let group = ThreadGroup::new();
+        let ran = Arc::new(AtomicU32::new(0));
+        let mut accepted = 0u32;
+        let pool1 = group.start_pool(None, nperm1, linger).expect("start_pool 1");
+        for _ in 0..n_tasks {
+            let r = ran.clone();
+            if pool1.submit_or_spawn(move || { r.fetch_add(1, Ordering::SeqCst); }).is_ok() {
+                accepted += 1;
+            }
+        }
+        pool1.shut_down();
+        let pool2 = group.start_pool(None, nperm2, linger).expect("start_pool 2");
+        pool1.shut_down(); // stale handle
+        for _ in 0..n_tasks {
+            let r = ran.clone();
+            if pool2.submit_or_spawn(move || { r.fetch_add(1, Ordering::SeqCst); }).is_ok() {
+                accepted += 1;
+            } else {
+                return "twopool bad the second pool rejects work although neither it nor its group was shut down".to_string();
+            }
+        }
+        group.shut_down();
+        let r = ran.clone();
+        if pool2.submit_or_spawn(move || { r.fetch_add(1000, Ordering::SeqCst); }).is_ok() {
+            return "twopool bad the second pool accepted work after its group's shutdown returned".to_string();
+        }
+        if !pool2.is_shutting_down() {
+            return "twopool bad the group's shutdown did not shut down its second pool".to_string();
+        }
+        group.await_shutdown();
+        let done = ran.load(Ordering::SeqCst);
+        if done != accepted {
+            return format!("twopool bad accepted={accepted} ran={done} when await_shutdown returned");
+        }
+        "twopool ok".to_string()
     }
 
     fn scenario(f: &[String]) -> Outcome {
@@ -338,6 +388,32 @@ mod real {
                 continue;
             }
             let fields: Vec<String> = t.split_whitespace().map(|s| s.to_string()).collect();
+            if fields[0] == "twopool" {
+                let (tx, rx) = mpsc::channel();
+                thread::spawn(move || {
+                    let r = std::panic::catch_unwind(std::panic::AssertUnwindSafe(|| twopool(&fields)));
+                    let _ = tx.send(r.ok());
+                });
+                let stdout = std::io::stdout();
+                let mut out = stdout.lock();
+                match rx.recv_timeout(Duration::from_secs(8)) {
+                    Ok(Some(o)) => {
+                        let _ = verif::disarm();
+                        writeln!(out, "{o}").unwrap();
+                    }
+                    Ok(None) => {
+                        let _ = verif::disarm();
+                        writeln!(out, "panic").unwrap();
+                    }
+                    Err(_) => {
+                        writeln!(out, "hang").unwrap();
+                        out.flush().unwrap();
+                        std::process::exit(3);
+                    }
+                }
+                out.flush().unwrap();
+                continue;
+            }
             let (tx, rx) = mpsc::channel();
             thread::spawn(move || {
                 let r = std::panic::catch_unwind(std::panic::AssertUnwindSafe(|| scenario(&fields)));
